@@ -56,8 +56,9 @@ def execute(spec, policy, seed):
     def scenario(run):
         c = run.make_connection(allowed_versions={VERSION})
         api(run, c, 'connect')
-        run.settle()
-        info['login_bytes'] = len(holder['sc'].session.c2s)
+        if not spec.get('early'):
+            run.settle()                # otherwise the writers race with the login itself
+            info['login_bytes'] = len(holder['sc'].session.c2s)
 
         def user(ops):
             def body():
@@ -88,8 +89,12 @@ def writer_events(run):
     sc = run.sc
     login = run.info.get('login_bytes', 0)
     frames = []
-    for fr in sc.de.frames:
+    for i, fr in enumerate(sc.de.frames):
         if fr['off'] < login:
+            continue
+        kind = sc.parsed[i]['t'] if i < len(sc.parsed) else '?'
+        if kind in ('handshake', 'login_start', 'enc_response'):
+            frames.append((fr['off'], fr['end'], -1))        # the login's own frames (writers racing with the login)
             continue
         p = 0
         body = fr['body']
@@ -99,7 +104,7 @@ def writer_events(run):
             if chan.startswith('w:'):
                 p = int(chan[2:])
                 data = r.rest()
-                if data != bytes((p * 7 + i) % 256 for i in range(len(data))):
+                if data != bytes((p * 7 + i2) % 256 for i2 in range(len(data))):
                     p = 0
         except Exception:       # noqa
             p = 0
@@ -130,6 +135,11 @@ def writer_events(run):
                     ev.append({'k': 'chunk', 't': t, 'p': 0, 'first': True, 'last': True, 'lockok': lockok})
                     break
                 end = min(b, fr[1])
+                if fr[2] == -1:
+                    if not lockok:
+                        ev.append({'k': 'chunk', 't': t, 'p': 0, 'first': True, 'last': True, 'lockok': False})
+                    pos = end
+                    continue
                 ev.append({'k': 'chunk', 't': t, 'p': fr[2], 'first': pos == fr[0], 'last': end == fr[1], 'lockok': lockok})
                 pos = end
     decoded = not sc.de.errors and len(sc.de.buf) == 0
@@ -152,7 +162,10 @@ def random_spec(rng, nusers):
         if i == disc_user:
             ops.insert(rng.randint(1, len(ops)), (rng.choice(['disc', 'disc', 'disc_now']),))
         users['u%d' % (i + 2)] = ops
-    return {'users': users, 'thr': thr, 'enc': rng.random() < 0.4}
+    enc = rng.random() < 0.4
+    # writers racing with the login itself: only without compression (a write that races with the server's
+    # set-compression announcement is ambiguous in the protocol itself, not in the client)
+    return {'users': users, 'thr': thr, 'enc': enc, 'early': enc and thr is None and rng.random() < 0.7}
 
 
 def run(chk):
@@ -172,6 +185,7 @@ def run(chk):
         {'users': {'u2': [('q', 1, 5), ('q', 2, 9)], 'u3': [('f', 3, 7), ('disc',)]}, 'thr': None, 'enc': False},
         {'users': {'u2': [('f', 1, 5), ('q', 2, 9)], 'u3': [('q', 3, 7), ('disc_now',)]}, 'thr': None, 'enc': False},
         {'users': {'u2': [('q', 1, 80), ('f', 2, 3)], 'u3': [('f', 3, 70), ('q', 4, 2), ('disc',)]}, 'thr': 64, 'enc': True},
+        {'users': {'u2': [('f', 1, 20), ('q', 2, 5)]}, 'thr': None, 'enc': True, 'early': True},
     ]
     bound = 2
     cap = 400 if quick else 6000
